@@ -17,6 +17,7 @@ EXPLANATION = (
     "those of the CURRENT vertex estimates (no stale cached state)."
 )
 BOUNDS = {"quick": "8 edge kinds; graph sums for all multisets of <=2 edge kinds plus one 3-edge graph", "thorough": "8 edge kinds; all multisets of <=3 edge kinds"}
+BOUNDS = {k: v + "; histories (vertices moved in place / rebound / +=; information matrix edited in place after construction); three edges over one vertex pair; edge objects re-linked to other vertices of the same ids" for k, v in BOUNDS.items()}
 OUTSIDE = "rounding; graphs beyond the bound are covered by the fold step only"
 ASSUMPTIONS = ["unit quaternions", "cos/sin addition formulas", "wrap contract a % m = a - m k"]
 
